@@ -33,14 +33,19 @@ FORBIDDEN = re.compile(
 ALLOWED_AXIOMS = set()
 
 
-def sh(cmd, cwd=None, timeout=None, env=None, input=None, check=False):
+def _limits():
+    import resource
+    resource.setrlimit(resource.RLIMIT_AS, (12 << 30, 12 << 30))
+
+
+def sh(cmd, cwd=None, timeout=None, env=None, input=None, check=False, limit_mem=False):
     e = dict(os.environ)
     e.setdefault("CARGO_NET_OFFLINE", "true")
     if env:
         e.update(env)
     p = subprocess.run(cmd, cwd=cwd, timeout=timeout, env=e, input=input,
                        stdout=subprocess.PIPE, stderr=subprocess.PIPE, text=True,
-                       shell=isinstance(cmd, str))
+                       shell=isinstance(cmd, str), preexec_fn=_limits if limit_mem else None)
     if check and p.returncode != 0:
         raise RuntimeError("command failed: %s\n%s\n%s" % (cmd, p.stdout[-4000:], p.stderr[-4000:]))
     return p
@@ -86,10 +91,9 @@ def proof_gate(prop, pregen=None):
     os.makedirs(WORK, exist_ok=True)
     if pregen:
         pregen()
-    if not os.path.exists(os.path.join(COQ, "Makefile")) or \
-            os.path.getmtime(os.path.join(COQ, "Makefile")) < os.path.getmtime(os.path.join(COQ, "_CoqProject")):
-        sh("coq_makefile -f _CoqProject -o Makefile", cwd=COQ, check=True)
-    p = sh("timeout 3000 make -j%d 2>&1" % NPROC, cwd=COQ)
+    sh("./mkproject.sh", cwd=COQ, check=True)
+    # full .vo build of the property file and everything it depends on (never -vos/-vok)
+    p = sh("timeout 3000 make -j%d theories/Properties/%s.vo 2>&1" % (NPROC, prop), cwd=COQ)
     if p.returncode != 0:
         raise GateFailure("coq-build", p.stdout[-6000:])
     # hygiene audit over every source file
@@ -103,12 +107,6 @@ def proof_gate(prop, pregen=None):
         bad.append("_CoqProject: forbidden flag")
     if bad:
         raise GateFailure("hygiene", "\n".join(bad))
-    # all theory files are in the project (nothing proved "on the side")
-    listed = set(l.strip() for l in proj.splitlines() if l.strip().endswith(".v"))
-    for f in coq_files():
-        rel = os.path.relpath(f, COQ)
-        if rel.startswith("theories") and rel not in listed:
-            raise GateFailure("hygiene", "%s is not listed in _CoqProject" % rel)
     pf = os.path.join(COQ, "theories", "Properties", "%s.v" % prop)
     src = strip_coq_comments(open(pf).read())
     thms = re.findall(r"\b(?:Theorem|Corollary)\s+(\w+)", src)
@@ -144,20 +142,21 @@ def proof_gate(prop, pregen=None):
 _built = {}
 
 
-def build_harness(profile="release"):
-    """cargo build of the harness against /repo's current working tree, hooks on."""
-    if profile in _built:
-        return _built[profile]
+def build_harness(binname, profile="release"):
+    """cargo build of one harness binary (harness/src/bin/<binname>.rs) against
+    /repo's current working tree, hooks on."""
+    key = (binname, profile)
+    if key in _built:
+        return _built[key]
     lock = os.path.join(HARNESS, "Cargo.lock")
     if not os.path.exists(lock):
         sh(["cp", os.path.join(REPO, "Cargo.lock"), lock], check=True)
-    cmd = ["cargo", "build", "--offline"] + (["--release"] if profile == "release" else [])
-    t0 = time.time()
+    cmd = ["cargo", "build", "--offline", "--bin", binname] + (["--release"] if profile == "release" else [])
     p = sh(cmd, cwd=HARNESS, env={"RUSTFLAGS": "--cfg %s" % GUARD, "CARGO_TARGET_DIR": TARGET}, timeout=3000)
     if p.returncode != 0:
         raise GateFailure("harness-build", p.stderr[-6000:])
-    exe = os.path.join(TARGET, "release" if profile == "release" else "debug", "gvh")
-    _built[profile] = exe
+    exe = os.path.join(TARGET, "release" if profile == "release" else "debug", binname)
+    _built[key] = exe
     return exe
 
 
@@ -189,25 +188,28 @@ def run_lines(cmd, lines, shards=None, timeout=1200, env=None):
     chunks = [lines[i::shards] for i in range(shards)]
 
     def one(ch):
-        if not ch:
-            return []
-        p = sh(cmd, input="\n".join(ch) + "\n", timeout=timeout, env=env)
-        out = p.stdout.splitlines()
-        if p.returncode != 0 or len(out) != len(ch):
-            # find the offending case by running one at a time
-            res = []
-            for l in ch:
-                try:
-                    q = sh(cmd, input=l + "\n", timeout=60, env=env)
-                    o = q.stdout.splitlines()
-                    if q.returncode != 0 or len(o) != 1:
-                        res.append("CRASH rc=%s %s" % (q.returncode, (q.stderr or "")[-200:].replace("\n", " ")))
-                    else:
-                        res.append(o[0])
-                except subprocess.TimeoutExpired:
-                    res.append("HANG")
-            return res
-        return out
+        # a harness process may stop early after printing HANG/CRASH for a case
+        # (watchdog) or die; restart it on the remaining cases
+        res = []
+        guard = 0
+        while len(res) < len(ch) and guard < len(ch) + 2:
+            guard += 1
+            rest = ch[len(res):]
+            try:
+                p = sh(cmd, input="\n".join(rest) + "\n", timeout=timeout, env=env, limit_mem=True)
+                out = p.stdout.splitlines()
+            except subprocess.TimeoutExpired as e:
+                out = (e.stdout or b"").decode(errors="replace").splitlines() if isinstance(e.stdout, bytes) else (e.stdout or "").splitlines()
+                out = out + ["HANG"] if len(out) < len(rest) else out
+                res.extend(out[:len(rest)])
+                continue
+            if len(out) < len(rest):
+                if not out or not (out[-1].startswith("HANG") or out[-1].startswith("CRASH")):
+                    out.append("CRASH rc=%s %s" % (p.returncode, (p.stderr or "")[-200:].replace("\n", " ")))
+            res.extend(out[:len(rest)])
+        while len(res) < len(ch):
+            res.append("CRASH unknown")
+        return res
 
     with concurrent.futures.ThreadPoolExecutor(max_workers=shards) as ex:
         outs = list(ex.map(one, chunks))
